@@ -95,6 +95,13 @@ def handle_reads(h, model, i, keys=None):
     want4 = np.array([model["x"][i], model["y"][i], model["z"][i], model["r"][i]], dtype=np.float32)
     if not eq(h.xyzr(), want4):
         bad.append(("xyzr()", lst(h.xyzr()), lst(want4)))
+    if hasattr(h, "is_root") and hasattr(h, "is_soma"):  # handles of a tree: root / soma status is read through the handle as well
+        root = int(model["pid"][i]) == -1
+        soma = root and int(model["type"][i]) == int(h.attach.types.soma)
+        if bool(h.is_root()) != root:
+            bad.append(("is_root()", bool(h.is_root()), root))
+        if bool(h.is_soma()) != soma:
+            bad.append(("is_soma()", bool(h.is_soma()), soma))
     return bad
 
 
